@@ -16,7 +16,8 @@
    add up to at most the size of the box. *)
 From Similar Require Import Model.Base Model.Utils Model.Myers Model.Hooks
   Spec.Script Spec.EditGraph Spec.SnakeSpec
-  Proofs.MyersSweep Proofs.MyersConquer Proofs.MyersWork.
+  Proofs.MyersSweep Proofs.MyersConquer Proofs.MyersWork Proofs.Unique Proofs.PatienceWork.
+From Similar Require Import Model.Capture.
 
 (* ---- item 1: what "number of comparisons" means ---- *)
 Theorem c19_count_world :
@@ -190,3 +191,52 @@ Example c19_instance_snake :
   | _ => False
   end.
 Proof. vm_compute. split; reflexivity. Qed.
+
+(* ---------------------------------------------------------------------- *)
+(* Patience: <= 12 (N+M+1)(D+1) with D the size of the script it reports   *)
+(* (Proofs/PatienceWork.v).  Patience pays twice: the outer Myers run over *)
+(* the two lists of unique items compares items too, and each inner run on *)
+(* a gap costs 6 (n+m+1)(d+1).  The oracles must behave like ONE equality  *)
+(* on items ([Consistent]); with a Hash/Eq that disagree the bound fails   *)
+(* for every constant (c19_patience_needs_consistent).                     *)
+(* ---------------------------------------------------------------------- *)
+Theorem c19_patience_work_bound :
+  forall (dbg : bool) (orc : oracles) (os oe ns ne : nat) (calls : list call) (c : ctr),
+    os <= oe -> ns <= ne ->
+    CmpTotal (o_on orc) os oe ns ne ->
+    Consistent orc os oe ns ne ->
+    raw_trace Patience None dbg orc os oe ns ne = Ok (calls, c) ->
+    cmps c <= 12 * (oe - os + (ne - ns) + 1) * (calls_cost calls + 1).
+Proof. exact patience_work_bound. Qed.
+Print Assumptions c19_patience_work_bound.
+
+(* instance: items compared by any boolean equivalence *)
+Theorem c19_patience_work_bound_items :
+  forall (A : Type) (eqb : A -> A -> bool) (old new : lookup A) (dbg : bool) (os oe ns ne : nat)
+         (calls : list call) (c : ctr),
+    (forall x : A, eqb x x = true) ->
+    (forall x y : A, eqb x y = true -> eqb y x = true) ->
+    (forall x y z : A, eqb x y = true -> eqb y z = true -> eqb x z = true) ->
+    os <= oe -> ns <= ne ->
+    (forall i : nat, os <= i < oe -> exists x : A, old i = Some x) ->
+    (forall j : nat, ns <= j < ne -> exists y : A, new j = Some y) ->
+    raw_trace Patience None dbg
+      {| o_on := cmp_of eqb old new; o_oo := cmp_same eqb old; o_nn := cmp_same eqb new |}
+      os oe ns ne = Ok (calls, c) ->
+    cmps c <= 12 * (oe - os + (ne - ns) + 1) * (calls_cost calls + 1).
+Proof. exact @patience_work_bound_items. Qed.
+Print Assumptions c19_patience_work_bound_items.
+
+(* without consistency: identical sequences 0..199 (D = 0), o_oo calling the
+   even and o_nn the odd positions unique: 10401 comparisons > 16 * 401 *)
+Theorem c19_patience_needs_consistent :
+  CmpTotal (o_on bad_orc) 0 200 0 200 /\
+  SameTotal (o_oo bad_orc) 0 200 /\
+  SameTotal (o_nn bad_orc) 0 200 /\
+  exists (calls : list call) (c : ctr),
+    raw_trace Patience None true bad_orc 0 200 0 200 = Ok (calls, c) /\
+    calls_cost calls = 0 /\
+    cmps c = 10401 /\
+    (16 * (200 + 200 + 1) * (calls_cost calls + 1) <? cmps c) = true.
+Proof. exact patience_work_inconsistent_oracles. Qed.
+Print Assumptions c19_patience_needs_consistent.
